@@ -82,8 +82,11 @@ func (t *AppendOnlyTree) AddLeaf(tx dbtypes.Txer, blockNum, blockPosition uint64
 	}
 	t.lastIndex++
 	tx.AddRollbackCallback(func() {
-		log.Debugf("decreasing index due to rollback")
-		t.lastIndex--
+		// The cached frontier (lastLeftCache) has been overwritten by the leaves added in this transaction,
+		// so decreasing the index is not enough: invalidate the cache and let the next AddLeaf rebuild it
+		// from the rolled-back tables.
+		log.Debugf("invalidating append-only tree cache due to rollback")
+		t.lastIndex = -2
 	})
 	return nil
 }
